@@ -15,6 +15,7 @@ import (
 	"fmt"
 	"net/netip"
 	"sort"
+	"strings"
 	"testing"
 	"testing/synctest"
 	"time"
@@ -56,6 +57,14 @@ func (c pairConc) build() *schedx.Instance {
 		var ops []schedx.Op
 		for _, name := range th {
 			rc := bs[name].clone()
+			if strings.HasSuffix(c.name, "[genuine ids]") {
+				// the responses answer the requests R really has pending.
+				if id, ok := tw.pendingIDs[rc.hdr.PingType]; ok && rc.hdr.FollowUp {
+					rc.hdr.PingID = id
+				} else if rc.hdr.FollowUp {
+					panic("harness: no pending request of type " + rc.hdr.PingType)
+				}
+			}
 			raw, err := tw.wire(rc)
 			must(err)
 			via := tw.x
@@ -90,6 +99,13 @@ func pairConcs(deep bool) []pairConc {
 				}
 				out = append(out, pairConc{name: fl.n + "/" + a + " | " + b, swap: fl.swap, pending: fl.pending, threads: [][]string{{a}, {b}}})
 			}
+		}
+	}
+	// the peer's responses carry the ids of the requests R really has pending (two responses
+	// to one request handled at once, a response next to a new request of the peer).
+	for _, swap := range []bool{false, true} {
+		for _, pr := range [][2]string{{"pong-response", "pong-response"}, {"hello-response", "hello-response"}, {"pong-response", "hello-response"}, {"pong-response", "pong-request"}, {"hello-response", "hello-request"}} {
+			out = append(out, pairConc{name: fmt.Sprintf("own-exchanges-pending/swap=%v/%s | %s [genuine ids]", swap, pr[0], pr[1]), swap: swap, pending: true, threads: [][]string{{pr[0]}, {pr[1]}}})
 		}
 	}
 	return out
